@@ -44,6 +44,8 @@ EXPECT = {
     "seed-C15-m": ["C15"], "seed-C17-m": ["C17", "C14"], "seed-C19-m": ["C19"],
     "seed-C01-n": ["C01"], "seed-C02-n": ["C02"], "seed-C03-n": ["C03"], "seed-C04-n": ["C04", "C05"], "seed-C05-n": ["C05"], "seed-C07-n": ["C07"],
     "seed-C08-n": ["C08", "C07"], "seed-C12-n": ["C12", "C02"], "seed-C13-n": ["C13"], "seed-C16-n": ["C16"],
+    "seed-C01-o": ["C08"], "seed-C02-o": ["C02", "C04"], "seed-C03-o": ["C03"], "seed-C04-o": ["C04"], "seed-C05-o": ["C05"], "seed-C06-o": ["C06"],
+    "seed-C07-o": ["C07"], "seed-C08-o": ["C08"], "seed-C10-o": ["C10"], "seed-C11-o": ["C11"], "seed-C13-o": ["C13"], "seed-C16-o": ["C16"], "seed-C19-o": ["C19"],
 }
 
 
